@@ -149,6 +149,20 @@ by rewrite act_liouvillian_data act_liouvillian_qobj // (tr_lindblad_rhs _ _ hh)
 Qed.
 Print Assumptions C07_liouvillian_traceless.
 
+(* the same as a statement about the returned matrix: the trace functional
+   vec(I)^T is a left null vector of L.full() *)
+Theorem C07_liouvillian_trace_functional :
+  forall (R : fieldType) (conj : {rmorphism R -> R}) n (i h : R) (expi : R -> R),
+    h + h = 1 -> expi 0 = 1 ->
+    forall (H : Oexpr R n) (cs : seq (Oexpr R n * R)),
+      all (fun p => p.2 == 0) cs ->
+      (cvec (1%:M : 'M[R]_n))^T *m den conj (gen_liouvillian_data i h expi H cs) = 0.
+Proof.
+move=> R conj n i h expi hh e0 H cs Hall; apply: trace_functional=> X.
+by have [-> _] := C07_liouvillian_traceless conj i hh e0 H X Hall.
+Qed.
+Print Assumptions C07_liouvillian_trace_functional.
+
 (* a Liouvillian built from a Hermitian H commutes with taking the adjoint *)
 Theorem C07_liouvillian_hermiticity_preserving :
   forall (R : fieldType) (conj : {rmorphism R -> R}) n (i h : R) (expi : R -> R),
